@@ -219,6 +219,8 @@ var schema = []schemaField{
 	{I(F("tags"), "0"), "str"}, {I(F("tags"), "1"), "str"}, {I(F("nums"), "2"), "num"}, {L(F("tags")), "num"}, {L(F("nums")), "num"},
 	{F("items"), "arr-obj"}, {D(I(F("items"), "0"), "price"), "num"}, {D(I(F("items"), "1"), "price"), "num"}, {L(F("items")), "num"},
 	{I(F("tags"), "7"), "str"},
+	// paths that step through a value of the wrong kind: never present (EXISTS false, DOES NOT EXIST true)
+	{I(F("s"), "0"), "str"}, {I(F("o"), "0"), "num"}, {I(F("a"), "1"), "num"}, {D(F("tags"), "x"), "str"}, {D(F("s"), "x"), "num"}, {D(I(F("nums"), "0"), "x"), "num"},
 }
 
 func genDoc(rng *rand.Rand) map[string]any {
@@ -812,6 +814,13 @@ func queryC14(o *Opts) {
 				sig = "C14/panic/does-not-at-end"
 			}
 			res.Violate("impl-failure", sig, fmt.Sprintf("BuildFilter(%q) / applying it to %q: %s", text, md, real), replay)
+		}
+		// "invalid JSON … simply rejects": whatever the filter, metadata that is not JSON is never accepted
+		if real == "true" && !json.Valid(md) {
+			res.Violate("impl-failure", "C14/invalid-json-accepted", fmt.Sprintf("BuildFilter(%q) accepts the metadata %q, which is not valid JSON", text, md), replay)
+		}
+		if !json.Valid(md) {
+			res.Hit("metadata:invalid-json:" + real)
 		}
 		if model != real {
 			res.Violate("tie-broken", "tie/query/malformed", fmt.Sprintf("model=%s impl=%s for %q on %q", model, real, text, md), replay)
